@@ -18,15 +18,23 @@ Deliverables per property, inside its worktree, in a new directory SEED/: patch.
 
 Read the relevant source first (the files listed per property are where the behaviour lives), then design the change. Prefer subtle semantic changes in the core mechanism over peripheral ones. If your first idea makes an existing test fail, pick another.
 """)
+import os
 for i in ids:
     p = props[i]
+    prev = ""
+    for d in sorted(x for x in os.listdir("/verif/seeded") if x == i or x.startswith(i + "-")):
+        try:
+            prev += f"\n--- earlier seeded change ({d}) ---\n" + open(f"/verif/seeded/{d}/patch.diff").read()
+        except OSError:
+            pass
     out.append(f"""
 === Property {i}: {p['title']} ===
 Worktree: /tmp/seed/{i}
 Statement: {p['statement']}
 Quantified over: {p['quantifier']['text']}
 Where it lives: {', '.join(p['anchors']['files'])}
-""")
+""" + (f"""An earlier round of this study already produced the change(s) below for this property. Produce a DIFFERENT defect: another mechanism, preferably another clause of the statement and another code site (do not merely vary the earlier one).{prev}
+""" if prev else ""))
 out.append("""
 When done, reply with a short report per property: the idea of the change (2-3 lines), what is needed for it to manifest, and the exact outcomes you observed (test suite result with the change; demo exit status without and with the change).""")
 print("".join(out))
